@@ -36,7 +36,10 @@ def sdump(node):
         return node.__class__.__name__ + '(' + ','.join(parts) + ')'
     if isinstance(node, list):
         return '[' + ','.join(sdump(x) for x in node) + ']'
-    return type(node).__name__ + ':' + repr(node)
+    try:
+        return type(node).__name__ + ':' + repr(node)
+    except ValueError:
+        return type(node).__name__ + ':' + hex(node)      # int above the decimal conversion limit
 
 
 def first_diff(a, b, path='root'):
